@@ -30,6 +30,8 @@ func init() {
 			ruleReadersWriteNothing(c, "R6")
 			ruleReleasedObjectsStayInside(c, "R7")
 			ruleNoSharingByStructCopy(c, "R8")
+			ruleMemoListsAreCopied(c, "R9")
+			ruleConstructorsOwnTheirLists(c, "R10")
 		},
 	})
 }
